@@ -644,8 +644,10 @@ def shrink(v, prop, run_pair, canon, split_blocks, first_diff, orc, rundir, stri
     return v
 
 
-for p in ("C08", "C09"):
-    FAMILIES[p] = SpecialFamily()
+FAMILIES["C09"] = SpecialFamily()
+# "a vector or element": element histories over the covering set of allocator kinds as well
+# (seeded change C08i: element move assignment lost the allocator propagation)
+FAMILIES["C08"] = Multi(SpecialFamily(), ElemFamily(nlists=6, nscripts=12))
 for p in ("C03", "C04"):
     # states reached through copy / move / swap between vectors of different fixed sizes count as
     # reachable states of the layout properties too (seeded change C04d)
@@ -655,7 +657,10 @@ FAMILIES["C16"] = Multi(HistFamily(nlists=16, nhist=8), SpecialFamily(nlists=6, 
 FAMILIES["C18"] = Multi(EmptyFamily(), HistFamily(nlists=8, nhist=6, nfill=2))
 FAMILIES["C01"] = Multi(HistFamily(allow_overlap=True), SpecialFamily(nlists=6, nscripts=8), SweepFamily())
 FAMILIES["C05"] = Multi(HistFamily(nlists=16, nhist=8), SpecialFamily(nlists=6, nscripts=8), SweepFamily())
-FAMILIES["C07"] = Multi(HistFamily(nlists=16, nhist=8), SpecialFamily(nlists=6, nscripts=8), OverlapEraseFamily())
+# "a vector or ContiguousElement": element histories too (seeded change C07i: element copy
+# assignment kept a block of the old allocator under a propagating unequal allocator)
+FAMILIES["C07"] = Multi(HistFamily(nlists=16, nhist=8), SpecialFamily(nlists=6, nscripts=8), OverlapEraseFamily(),
+                        ElemFamily(nlists=6, nscripts=12))
 # "every object stored in a vector or ContiguousElement": element histories on the lists with
 # instrumented value types as well (seeded change C06f)
 FAMILIES["C06"] = Multi(HistFamily(nlists=16, nhist=8, allow_overlap=True), SpecialFamily(nlists=6, nscripts=8),
